@@ -55,3 +55,45 @@ def analyse(prop="C14"):
     c.ensures("long_iff_limit_on_and_beyond_column_72", lambda v0, res, v1: flags(v1)["isLong"] == z3.And(N(v0) > 73, sel(H(v0, "length_limit"), v0.self)))
     c.no_raise = True
     return c
+
+
+# ------------------------------------------------------------------ fixed2free2._inline_comment_start
+def inline_comment_start(prop="C14"):
+    """the scanner continueLine uses to place the continuation mark: the index of the first '!' read in state CODE of the character-context automaton (specs/lex.py), else -1"""
+    from specs import lex
+    from contracts.scanners import _arr, _n, _oracle_pair
+    c = Contract("ford.fixed2free2", "_inline_comment_start", prop)
+    c.param("text", TScan())
+    c.local("quote", TOptChar())
+    A = lambda v: _arr(v, "text")
+    NOBANG = z3.Function("NO_CODE_BANG_BEFORE", z3.ArraySort(z3.IntSort(), z3.IntSort()), z3.IntSort(), z3.BoolSort())   # no '!' in state CODE among text[0:k]
+    BANG = 33
+
+    def unfold(v):
+        arr, k = A(v), v.k
+        return lex.unfold(arr, k) + [NOBANG(arr, 0), NOBANG(arr, k + 1) == z3.And(NOBANG(arr, k), z3.Not(z3.And(z3.Select(arr, k) == BANG, lex.RUN(arr, k) == lex.CODE)))]
+    c.loop(0, invariants=[
+        ("quote_is_state", lambda v: z3.And(z3.Implies(lex.RUN(A(v), v.k) == lex.CODE, v.quote == -1), z3.Implies(lex.RUN(A(v), v.k) == lex.SQ, v.quote == lex.QS),
+                                            z3.Implies(lex.RUN(A(v), v.k) == lex.DQ, v.quote == lex.QD))),
+        ("no_comment_so_far", lambda v: NOBANG(A(v), v.k)),
+    ], unfold=unfold, variant=lambda v: _n(v, "text") - v.k)
+    c.post_facts = lambda v0: [NOBANG(A(v0), 0)]
+
+    def post(v0, res, v1):
+        arr, n = A(v0), _n(v0, "text")
+        r = res.t
+        return z3.If(r == -1, NOBANG(arr, n), z3.And(0 <= r, r < n, z3.Select(arr, r) == BANG, lex.RUN(arr, r) == lex.CODE, NOBANG(arr, r)))
+    c.ensures("first_exclamation_mark_outside_character_literals_else_minus_one", post)
+    c.no_raise = True
+    real = loader.get_obj("ford.fixed2free2", "_inline_comment_start")
+
+    def oracle(s):
+        st = lex.py_states(s)
+        for i, ch in enumerate(s):
+            if ch == "!" and st[i] == lex.CODE:
+                return i
+        return -1
+    rp, search = _oracle_pair(real, oracle, lambda: ((s,) for s in lex.strings("a'\"!", 6)), "_inline_comment_start")
+    c.replay_fn = lambda w: rp((w["text"],)) if w.get("text") is not None else {"confirmed": False}
+    c.search_fn = search
+    return c
